@@ -52,7 +52,7 @@ def run(cx):
         sites = check_callers(ob, prog, f"{INNER}::new", [f"{API}::new"], exact=1, what="ActivePeersInner::new")
         b = cx.body(f"{API}::new")
         o = Origins(b)
-        lock_new = b.calls_to("std::sync::RwLock::new")
+        lock_new = b.calls_to("RwLock::new")
         ob.floor(lock_new, 1, "RwLock::new in ActivePeers::new", exact=True)
         t = arg_origin(lock_new[0], 0, o)
         ob.require(t[0] == "call" and name_matches(t[1], f"{INNER}::new"), "rwlock-new-arg",
@@ -62,13 +62,13 @@ def run(cx):
         def on_inner(c):
             return any("ActivePeersInner" in g for g in c.ga) or "ActivePeersInner" in (c.self_ty or "")
         for meth in ("write", "try_write", "get_mut", "into_inner"):
-            for c in prog.callers_of(f"std::sync::RwLock::{meth}", crates=A):
+            for c in prog.callers_of(f"RwLock::{meth}", crates=A):
                 if not on_inner(c):
                     continue
                 ob.require(meth == "write" and c.body.path == f"{API}::inner_mut", f"lock-{meth}/{owner_path(prog, c.body)}",
                            f"RwLock<ActivePeersInner>::{meth} in {c.body.path}", c.body.path, c.body.loc(c.bb))
         for meth in ("get_mut", "try_unwrap", "into_inner", "make_mut"):
-            for c in prog.callers_of(f"std::sync::Arc::{meth}", crates=A):
+            for c in prog.callers_of(f"Arc::{meth}", crates=A):
                 if on_inner(c):
                     ob.fail("refuted", f"arc-{meth}/{owner_path(prog, c.body)}", f"Arc<RwLock<ActivePeersInner>>::{meth} in {c.body.path}",
                             c.body.path, c.body.loc(c.bb))
@@ -104,17 +104,17 @@ def run(cx):
             if is_tracing(c):
                 return None
             fn = c.fn or ""
-            if name_matches(fn, "std::collections::HashMap::entry"):
+            if name_matches(fn, "HashMap::entry"):
                 return "entry"
-            if name_matches(fn, "std::collections::hash_map::VacantEntry::insert"):
+            if name_matches(fn, "VacantEntry::insert"):
                 return "vacant.insert(%s)" % conn_name(o.of_operand(c.args[1]))
-            if name_matches(fn, "std::collections::hash_map::OccupiedEntry::insert"):
+            if name_matches(fn, "OccupiedEntry::insert"):
                 return "occupied.insert(%s)" % conn_name(o.of_operand(c.args[1]))
-            if name_matches(fn, "std::collections::hash_map::OccupiedEntry::remove_entry"):
+            if name_matches(fn, "OccupiedEntry::remove_entry"):
                 return "remove_entry"
-            if name_matches(fn, "std::collections::HashMap::remove"):
+            if name_matches(fn, "HashMap::remove"):
                 return "map.remove"
-            if fn.startswith("std::collections::hash_map::") or fn.startswith("std::collections::HashMap::"):
+            if "::hash::map::" in fn:
                 last = fn.split("::")[-1]
                 if last in MAPMUT:
                     return "mapmut:" + last
@@ -154,7 +154,7 @@ def run(cx):
     def stmt_sym(bb, s, o):
         if s["lhs"] == 0 and s["rv"]["k"] == "agg":
             rv = s["rv"]
-            if rv.get("adt") == "std::option::Option":
+            if rv.get("adt") == "core::option::Option":
                 if rv["variant"] == "Some":
                     return "ret(Some:%s)" % conn_name(o.of_operand(rv["ops"][0]))
                 return "ret(None)"
@@ -199,7 +199,7 @@ def run(cx):
         def is_new_pid(t):
             s = strip_identity(t)
             return s[0] == "call" and name_matches(s[1], "anemo::connection::Connection::peer_id") and is_param(s[2][0], "new_connection")
-        e = b.calls_to("std::collections::HashMap::entry")
+        e = b.calls_to("HashMap::entry")
         ob.floor(e, 1, "HashMap::entry in add", exact=True)
         ob.require(is_new_pid(arg_origin(e[0], 1, o)), "add/entry-key", f"add: entry key is {show(arg_origin(e[0], 1, o))}", b.path, b.loc(e[0].bb))
         ob.require(mentions_field(arg_origin(e[0], 0, o), "connections"), "add/entry-map", "add: entry() not on self.connections", b.path)
@@ -218,7 +218,7 @@ def run(cx):
         ws = words_of(b, mk_call_sym("remove"), edge_sym, stmt_sym)
         check_words(ob, b, ws, {"map.remove [Some] close(removed) send(Lost) <return>", "map.remove [None] <return>"}, "remove")
         o = Origins(b)
-        rm = b.calls_to("std::collections::HashMap::remove")
+        rm = b.calls_to("HashMap::remove")
         ob.floor(rm, 1, "HashMap::remove in remove", exact=True)
         ob.require(is_param(arg_origin(rm[0], 1, o), "peer_id") and mentions_field(arg_origin(rm[0], 0, o), "connections"),
                    "remove/key", "remove: map.remove not keyed by the peer_id parameter on self.connections", b.path)
@@ -235,7 +235,7 @@ def run(cx):
             "entry [Occupied] stable_id==(param)=false <return>",
             "entry [Vacant] <return>"}, "remove_with_stable_id")
         o = Origins(b)
-        e = b.calls_to("std::collections::HashMap::entry")
+        e = b.calls_to("HashMap::entry")
         ob.floor(e, 1, "HashMap::entry in remove_with_stable_id", exact=True)
         ob.require(is_param(arg_origin(e[0], 1, o), "peer_id") and mentions_field(arg_origin(e[0], 0, o), "connections"),
                    "rws/key", "remove_with_stable_id: entry not keyed by the peer_id parameter", b.path)
@@ -277,7 +277,7 @@ def run(cx):
         # peers(): keys of the map
         pb = cx.body(f"{INNER}::peers")
         po = Origins(pb)
-        ks = pb.calls_to("std::collections::HashMap::keys")
+        ks = pb.calls_to("HashMap::keys")
         ob.floor(ks, 1, "HashMap::keys in peers()", exact=True)
         ob.require(mentions_field(arg_origin(ks[0], 0, po), "connections"), "peers/keys-of-connections", "peers() is not connections.keys()", pb.path)
 
@@ -304,7 +304,7 @@ def run(cx):
     with cx.ob("C04.5", "R-SHAPE", "the listing is the key set of a HashMap<PeerId, Connection>") as ob:
         a = cx.adt(INNER)
         f = {x["name"]: x["ty"] for x in a["variants"][0]["fields"]}
-        ob.require(f.get("connections", "").startswith("std::collections::HashMap<anemo::types::peer_id::PeerId, anemo::connection::Connection"),
+        ob.require(f.get("connections", "").startswith("std::collections::hash::map::HashMap<anemo::types::peer_id::PeerId, anemo::connection::Connection"),
                    "shape/connections", f"connections has type {f.get('connections')}", INNER)
         ob.require("broadcast::Sender<anemo::types::PeerEvent>" in f.get("peer_event_sender", ""), "shape/sender",
                    f"peer_event_sender has type {f.get('peer_event_sender')}", INNER)
